@@ -530,7 +530,30 @@ def build_link(W, l):
     elif k == "multi":
         c1 = [W.cid(d, c) for d, c in l[1]]
         c2 = [W.cid(d, c) for d, c in l[2]]
-        dc.add_link(W.use(LH.MultiLink(c1, c2, forwards=FUNCS[l[3]], backwards=FUNCS[l[4]])))
+        kw = {}
+        if len(l) > 5 and l[5] is not None:
+            kw["labels1"] = list(l[5])
+        if len(l) > 6 and l[6] is not None:
+            kw["labels2"] = list(l[6])
+        try:
+            dc.add_link(W.use(LH.MultiLink(c1, c2, forwards=FUNCS[l[3]], backwards=FUNCS[l[4]], **kw)))
+        except (TypeError, ValueError) as e:
+            raise Unbuildable("multi: %s" % type(e).__name__)
+    elif k in ("offset", "affine"):
+        # the wcs_autolinking helpers: their functions are bound methods computed from parameters
+        # (offsets / an affine matrix), which is what their savers store
+        from glue.plugins.wcs_autolinking.wcs_autolinking import OffsetLink, AffineLink
+        c1 = [W.cid(d, c) for d, c in l[1]]
+        c2 = [W.cid(d, c) for d, c in l[2]]
+        d1, d2 = W.data[l[1][0][0]], W.data[l[2][0][0]]
+        if k == "offset":
+            # an array as wcs_autolink's least-squares fit produces (all-int -> int64, else float64); a python
+            # list MIXING ints and floats is not generated: the saver stores np.asarray(offsets), so the int
+            # entries come back as floats and integer pixel results change dtype (values stay equal)
+            link = OffsetLink(data1=d1, data2=d2, cids1=c1, cids2=c2, offsets=np.array([num(x) for x in l[3]]))
+        else:
+            link = AffineLink(data1=d1, data2=d2, cids1=c1, cids2=c2, matrix=affine_matrix(l[3], len(c1)))
+        dc.add_link(W.use(link))
     elif k == "aligned":
         try:
             dc.add_link(W.use(LH.LinkAligned(W.data[l[1]], W.data[l[2]])))
@@ -701,7 +724,39 @@ def snapshot(dc, full_access=False):
                 row.append(v if (v == "X" or full_access) else digest(v))
             access.append([i, j] + row)
     groups = [[tok(g.label), style_tok(g.style), len(g.subsets)] for g in dc.subset_groups]
-    return [["data"] + out, ["access"] + access, ["groups"] + groups, ["sg", dc._sg_count], ["nlinks", len(dc.external_links)]]
+    return [["data"] + out, ["access"] + access, ["groups"] + groups, ["sg", dc._sg_count], ["nlinks", len(dc.external_links)],
+            ["links"] + [link_tok(l, datasets) for l in dc.external_links]]
+
+
+def link_tok(l, datasets):
+    """what a link helper in dc.external_links is, beyond the values it lets one dataset read from another
+    (those are in `access`): class, the datasets and component ids it connects, the human-readable argument
+    labels, the number of component links it expands to, and the parameters of the parametrised helpers"""
+    def didx(d):
+        return "N" if d is None else (datasets.index(d) if d in datasets else "out")
+
+    def cids(cs):
+        if cs is None:
+            return "N"
+        return [[didx(getattr(c, "parent", None)), tok(c.label)] for c in cs]
+
+    def labels(x):
+        return "N" if x is None else [tok(str(v)) for v in x]
+    row = [type(l).__name__]
+    if isinstance(l, LH.LinkCollection):
+        row += [["d1", didx(l.data1)], ["d2", didx(l.data2)], ["c1", cids(l.cids1)], ["c2", cids(l.cids2)],
+                ["l1", labels(getattr(l, "labels1", None))], ["l2", labels(getattr(l, "labels2", None))]]
+        try:
+            row.append(["n", len(list(l))])
+        except Exception as e:
+            row.append(["n", "err:" + type(e).__name__])
+        if hasattr(l, "offsets"):
+            row.append(["offsets"] + arrtok(np.asarray(l.offsets, dtype=float)))
+        if hasattr(l, "_matrix"):
+            row.append(["matrix"] + arrtok(np.asarray(l._matrix, dtype=float)))
+    else:   # a bare ComponentLink
+        row += [["from", cids(l.get_from_ids())], ["to", cids([l.get_to_id()])]]
+    return row
 
 
 # ---------------------------------------------------------------------------------------------
